@@ -33,7 +33,7 @@ struct Rng {
 };
 
 // --------------------------------------------------------------------- world
-struct IdName { uint32_t id; std::string name; };
+struct IdName { uint32_t id; std::string name; uint32_t entry_bytes = 0; };   // entry_bytes: what the rest of the entry (member list; gecos, home, shell) needs in the buffer of a getXXid_r caller
 struct Proc {
     int pid = 0, ppid = 0;
     std::string comm;                       // kernel process name (<= 15 bytes)
